@@ -65,7 +65,7 @@ type Op struct {
 	Handle      int               `json:"h,omitempty"`
 	Coll        int               `json:"c"`
 	Key         string            `json:"key,omitempty"`
-	Body        []byte            `json:"body,omitempty"` // raw bytes of the body (JSON text for JSON ops)
+	Body        []byte            `json:"body"` // raw bytes of the body (JSON text for JSON ops); an empty non-nil body is still a body
 	BodyNil     bool              `json:"bodyNil,omitempty"`
 	Exp         uint32            `json:"exp,omitempty"`
 	Preserve    bool              `json:"preserve,omitempty"`
